@@ -188,6 +188,8 @@ pub struct Stats {
     pub exhaustive_sections: Vec<String>,
     /// samples already attributed to a closed section
     pub section_samples: Vec<Value>,
+    pub section_secs: BTreeMap<String, f64>,
+    pub section_clock: Option<std::time::Instant>,
 }
 
 impl Stats {
@@ -267,6 +269,9 @@ impl Stats {
         self.notes.extend(o.notes);
         self.exhaustive_sections.extend(o.exhaustive_sections);
         self.section_samples.extend(o.section_samples);
+        for (k, v) in o.section_secs {
+            *self.section_secs.entry(k).or_insert(0.0) += v;
+        }
     }
     pub fn distinct_fps(&mut self) -> u64 {
         self.fps.sort_unstable();
@@ -280,6 +285,10 @@ impl Stats {
         e.0 += self.evaluations - mark.0;
         e.1 += d - mark.1;
         *mark = (self.evaluations, d);
+        let now = std::time::Instant::now();
+        let dt = self.section_clock.map(|t| now.duration_since(t).as_secs_f64()).unwrap_or(0.0);
+        self.section_clock = Some(now);
+        *self.section_secs.entry(name.to_string()).or_insert(0.0) += (dt * 100.0).round() / 100.0;
         // keep a few samples per section so every generator shows up in the evidence
         let taken: Vec<(u64, Value)> = std::mem::take(&mut self.samples);
         for (_, v) in taken.into_iter().take(4) {
@@ -568,7 +577,7 @@ pub fn finish(ctx: &Ctx, mut st: Stats, rep: Report, wall_s: f64) -> i32 {
         json!(st
             .sections
             .iter()
-            .map(|(k, v)| (k.clone(), json!({"evaluations": v.0, "distinct_nontrivial": v.1})))
+            .map(|(k, v)| (k.clone(), json!({"evaluations": v.0, "distinct_nontrivial": v.1, "wall_s": st.section_secs.get(k).copied().unwrap_or(0.0)})))
             .collect::<Map<_, _>>()),
     );
     cov.insert("exhaustive_sections".into(), json!(st.exhaustive_sections));
